@@ -270,11 +270,18 @@ def run(m: Model, r: Report, tier: str) -> None:
     wr = m.require_function(f"{DOIP}.DoIPConnection.write_request_raw")
     tr.ack_timeout_handler(m, r, "R9", wr, "self._read_ack")
     tr.doip_timing_units(m, r, "R9")
-    wsrc = [m.mtext(wr, s_) for s_ in ast.walk(wr.node) if isinstance(s_, (ast.Expr, ast.Assign, ast.AugAssign))]
-    iw = next((i for i, t in enumerate(wsrc) if t == m.mpat(wr, "self.writer.write(buf)")), None)
-    idr = next((i for i, t in enumerate(wsrc) if t == "await self.writer.drain()"), None)
-    r.check(iw is not None and idr is not None and iw < idr and m.mpat(wr, "buf += hdr.pack()") in wsrc and m.mpat(wr, "buf += payload.pack()") in wsrc, "R9", f"{wr.qualname}#sends-frame",
-            "the frame (header + payload) must be written and drained before waiting for the acknowledgement", loc=wr.loc)
+    from sa.util import bytes_parts
+    wcalls = [n for n in ast.walk(wr.node) if isinstance(n, ast.Call) and ast.unparse(n.func) == "self.writer.write" and len(n.args) == 1]
+    dcalls = [n for n in ast.walk(wr.node) if isinstance(n, ast.Await) and ast.unparse(n.value) == "self.writer.drain()"]
+    wpar = wr.params()
+    parts_ = bytes_parts(wr.node, wcalls[0].args[0]) if len(wcalls) == 1 else None
+    if len(wcalls) != 1 or parts_ is None or len(wpar) < 3:
+        r.unrecognised("R9", f"{wr.qualname}#sends-frame", f"{len(wcalls)} writer.write call(s) / buffer not resolvable", wr.loc)
+    else:
+        want_ = [f"{wpar[1]}.pack()", f"{wpar[2]}.pack()"]
+        pos_ok = bool(dcalls) and (wcalls[0].lineno, wcalls[0].col_offset) < min((d.lineno, d.col_offset) for d in dcalls)
+        r.check(parts_ == want_ and pos_ok, "R9", f"{wr.qualname}#sends-frame",
+                f"the frame written is {parts_} (expected {want_}) and must be drained before waiting for the acknowledgement", loc=wr.loc)
     for q, callee in ((f"{DOIP}.DoIPConnection.write_diag_request", "self.write_request_raw(hdr, payload)"),
                       (f"{DOIP}.DoIPConnection.write_routing_activation_request", "self.write_request_raw(hdr, payload)"),
                       (f"{DOIP}.DoIPTransport.write", "asyncio.wait_for(self._conn.write_diag_request(data), timeout)"),
@@ -328,10 +335,10 @@ def run(m: Model, r: Report, tier: str) -> None:
     ga = CFG(ac.node)
     hv = {n.targets[0].id for n in ast.walk(ac.node) if isinstance(n, ast.Assign) and isinstance(n.targets[0], ast.Name) and isinstance(n.value, ast.Call) and ast.unparse(n.value.func) == "GenericHeader"}
     pv = {n.targets[0].id for n in ast.walk(ac.node) if isinstance(n, ast.Assign) and isinstance(n.targets[0], ast.Name) and isinstance(n.value, ast.Call) and ast.unparse(n.value.func) == "AliveCheckResponse"}
+    from sa.util import bytes_parts as _bp
+    want_ac = [[f"{h_}.pack()", f"{p_}.pack()"] for h_ in hv for p_ in pv]
     wnodes = {n.id for n in ga.nodes.values() if n.kind == "stmt" and n.ast is not None and any(
-        isinstance(x, ast.Call) and ast.unparse(x.func) == "self.writer.write" and len(x.args) == 1 and isinstance(x.args[0], ast.BinOp) and isinstance(x.args[0].op, ast.Add)
-        and isinstance(x.args[0].left, ast.Call) and ast.unparse(x.args[0].left.func) in {f"{h_}.pack" for h_ in hv}
-        and isinstance(x.args[0].right, ast.Call) and ast.unparse(x.args[0].right.func) in {f"{p_}.pack" for p_ in pv} for x in ast.walk(n.ast))}
+        isinstance(x, ast.Call) and ast.unparse(x.func) == "self.writer.write" and len(x.args) == 1 and _bp(ac.node, x.args[0]) in want_ac for x in ast.walk(n.ast))}
     dnodes = {n.id for n in ga.nodes.values() if n.kind == "stmt" and n.ast is not None and "self.writer.drain()" in ast.unparse(n.ast)}
     okw_, _ = ga.must_pass(ga.entry, wnodes, {ga.exit_return}) if wnodes else (False, [])
     okd_, _ = ga.must_pass(ga.entry, dnodes, {ga.exit_return}) if dnodes else (False, [])
